@@ -20,7 +20,7 @@ use std::rc::Rc;
 pub static ENGINE: Engine = Engine {
     prop: "C14",
     level: "exploration",
-    rule: "diagram export: every Boolean function over 3 (4) named variables whose names need escaping (a', e-acute, x_1, b) as an interned diagram x filter Any/True/False through BDDGraph::render_dot, read back with an independent DOT reader: every node id declared once, every edge endpoint declared, one root, at most one T and one F edge per test node, declared nodes = distinct sub-diagrams minus the omitted leaf, only edges into the omitted leaf missing, and the read-back decision graph (a missing edge meaning the omitted leaf) has the truth table of f. Larger diagrams (5..20 variables, up to several hundred nodes: parities, and/or chains, thresholds, comparators of two blocks, multiplexers in both variable orders, scrambled functions) built node by node with mk_choice x 3 filters, read back structurally: the exported graph must be isomorphic to the diagram, every node declared once. Parse-tree export: every AST <= 3 (4) nodes over an alphabet with every node kind (incl. references, empty lists, repeated operands) through SymbolicParseTree::render_dot, read back as a term DAG from node and edge labels, unfolded, == the parsed tree. CLI: -d / -p files of every formula <= 3 (4) nodes equal the API rendering up to node addresses. distinct = distinct DOT texts",
+    rule: "diagram export: every Boolean function over 3 (4) named variables whose names need escaping (a', e-acute, x_1, b) as an interned diagram x filter Any/True/False through BDDGraph::render_dot, read back with an independent DOT reader: every node id declared once, every edge endpoint declared, one root, at most one T and one F edge per test node, declared nodes = distinct sub-diagrams minus the omitted leaf, only edges into the omitted leaf missing, and the read-back decision graph (a missing edge meaning the omitted leaf) has the truth table of f. Larger diagrams (5..20 variables, up to several hundred nodes: parities, and/or chains, thresholds, comparators of two blocks, multiplexers in both variable orders, scrambled functions) built node by node with mk_choice x 3 filters, read back structurally: the exported graph must be isomorphic to the diagram, every node declared once. Diagrams over a user-defined symbol type whose Hash is coarser than its Eq (4 608 functions of four such variables, all 65 536 in thorough) x 3 filters, same structural read-back. Parse-tree export: every AST <= 3 (4) nodes over an alphabet with every node kind (incl. references, empty lists, repeated operands) through SymbolicParseTree::render_dot, read back as a term DAG from node and edge labels, unfolded, == the parsed tree. CLI: -d / -p files of every formula <= 3 (4) nodes equal the API rendering up to node addresses. distinct = distinct DOT texts",
     assumptions: &["the DOT reader (harness/src/dot.rs) understands the one-statement-per-line format of the dot crate and Rust's escape_default", "label conventions: test nodes are labelled with the variable name, leaves true/false, edges T/F; parse-tree labels as printed by the exporter (Debug names of operators)"],
     max_shards: 64,
     run,
@@ -572,7 +572,7 @@ fn build_big(env: &Rc<rsbdd::bdd::BDDEnv<NamedSymbol>>, n: usize, f: &dyn Fn(&[b
 
 /// the exported graph is the diagram: same shape, labels and edge kinds, each diagram node
 /// declared exactly once (and only the omitted leaf and the edges into it missing)
-fn judge_bdd_dot_iso(g: &DotGraph, f: &HN, fi: usize) -> Vec<String> {
+fn judge_bdd_dot_iso<S: rsbdd::BDDSymbol>(g: &DotGraph, f: &Rc<BDD<S>>, fi: usize) -> Vec<String> {
     let mut c = vec![];
     let mut ids: BTreeMap<&str, &str> = BTreeMap::new();
     for (id, l) in &g.nodes {
@@ -608,9 +608,9 @@ fn judge_bdd_dot_iso(g: &DotGraph, f: &HN, fi: usize) -> Vec<String> {
         2 => Some(true),
         _ => None,
     };
-    let is_omitted = |n: &BDD<NamedSymbol>| matches!((n, omitted), (BDD::True, Some(true)) | (BDD::False, Some(false)));
+    let is_omitted = |n: &BDD<S>| matches!((n, omitted), (BDD::True, Some(true)) | (BDD::False, Some(false)));
     // distinct sub-diagrams by address (the diagram is interned) — and structurally, as a cross-check
-    let mut seen: Vec<*const BDD<NamedSymbol>> = vec![];
+    let mut seen: Vec<*const BDD<S>> = vec![];
     let mut stack = vec![f.clone()];
     let mut shown = 0usize;
     while let Some(n) = stack.pop() {
@@ -639,8 +639,8 @@ fn judge_bdd_dot_iso(g: &DotGraph, f: &HN, fi: usize) -> Vec<String> {
         return c;
     }
     // simultaneous walk
-    let mut map: BTreeMap<&str, *const BDD<NamedSymbol>> = BTreeMap::new();
-    let mut work: Vec<(&str, HN)> = vec![(roots[0], f.clone())];
+    let mut map: BTreeMap<&str, *const BDD<S>> = BTreeMap::new();
+    let mut work: Vec<(&str, Rc<BDD<S>>)> = vec![(roots[0], f.clone())];
     while let Some((id, n)) = work.pop() {
         if let Some(p) = map.get(id) {
             if *p != Rc::as_ptr(&n) {
@@ -660,8 +660,8 @@ fn judge_bdd_dot_iso(g: &DotGraph, f: &HN, fi: usize) -> Vec<String> {
                 }
             }
             BDD::Choice(t, v, e) => {
-                if label != v.name.as_str() {
-                    c.push(format!("the test on {} is exported as a node labelled '{label}'", v.name));
+                if label != v.to_string() {
+                    c.push(format!("the test on {} is exported as a node labelled '{label}'", v));
                     return c;
                 }
                 let (dt, de) = out.get(id).copied().unwrap_or((None, None));
@@ -670,11 +670,11 @@ fn judge_bdd_dot_iso(g: &DotGraph, f: &HN, fi: usize) -> Vec<String> {
                         (Some(w), false) => work.push((w, child.clone())),
                         (None, true) => {}
                         (Some(_), true) => {
-                            c.push(format!("the {kind} edge of a test on {} leads somewhere although its target is the omitted leaf", v.name));
+                            c.push(format!("the {kind} edge of a test on {} leads somewhere although its target is the omitted leaf", v));
                             return c;
                         }
                         (None, false) => {
-                            c.push(format!("the {kind} edge of a test on {} is missing", v.name));
+                            c.push(format!("the {kind} edge of a test on {} is missing", v));
                             return c;
                         }
                     }
@@ -686,6 +686,67 @@ fn judge_bdd_dot_iso(g: &DotGraph, f: &HN, fi: usize) -> Vec<String> {
         c.push(format!("{} declared nodes are not reachable from the root", g.nodes.len() - map.len()));
     }
     c
+}
+
+/// a user-defined symbol type whose `Hash` is coarser than its `Eq` / `Ord` (one bit of a named
+/// bit-vector, hashed by the vector's name only) — legal for `BDDSymbol`
+#[derive(Debug, Clone, PartialEq, Eq, PartialOrd, Ord)]
+struct VecBit {
+    vec: &'static str,
+    bit: usize,
+}
+impl std::hash::Hash for VecBit {
+    fn hash<H: std::hash::Hasher>(&self, h: &mut H) {
+        self.vec.hash(h)
+    }
+}
+impl std::fmt::Display for VecBit {
+    fn fmt(&self, f: &mut std::fmt::Formatter<'_>) -> std::fmt::Result {
+        write!(f, "{}_{}", self.vec, self.bit)
+    }
+}
+
+/// every function of four variables over the symbols c_0 < x_0 < x_1 < x_2 x 3 filters: nodes
+/// that differ only in symbols with equal hashes must still be told apart by the exporter
+fn check_coarse_hash_export(ctx: &mut Ctx, tt: u64, fi: usize) {
+    let case = json!({"part": "bdd-coarse-hash", "f": tt, "filter": fi});
+    ctx.begin_case(|| case.clone());
+    ctx.count("evaluations", 1);
+    ctx.count("coarse_hash_symbol_diagrams", 1);
+    let syms = [VecBit { vec: "c", bit: 0 }, VecBit { vec: "x", bit: 0 }, VecBit { vec: "x", bit: 1 }, VecBit { vec: "x", bit: 2 }];
+    let env = rsbdd::bdd::BDDEnv::<VecBit>::new();
+    fn go(env: &rsbdd::bdd::BDDEnv<VecBit>, syms: &[VecBit], tt: u64, level: usize, fixed: usize) -> Rc<BDD<VecBit>> {
+        if level == syms.len() {
+            return env.mk_const((tt >> fixed) & 1 == 1);
+        }
+        let t = go(env, syms, tt, level + 1, fixed | (1 << level));
+        let e = go(env, syms, tt, level + 1, fixed);
+        if Rc::ptr_eq(&t, &e) {
+            t
+        } else {
+            env.mk_choice(t, syms[level].clone(), e)
+        }
+    }
+    let d = match guarded(|| go(&env, &syms, tt, 0, 0)) {
+        Ok(d) => d,
+        Err(_) => return, // building is not this property's business
+    };
+    let key = format!("{TAG} diagram export over symbols with a coarse hash: f={tt:#x}, filter {:?}", filt(fi));
+    let mut buf: Vec<u8> = vec![];
+    if let Err(p) = guarded(|| BDDGraph::new(&d, filt(fi)).render_dot(&mut buf)) {
+        ctx.violation(key, format!("render_dot panicked: {p}"), case);
+        return;
+    }
+    let text = String::from_utf8_lossy(&buf).into_owned();
+    match dot::parse(&text) {
+        Err(e) => ctx.violation(key, format!("unreadable DOT: {e}"), case),
+        Ok(g) => {
+            let c = judge_bdd_dot_iso(&g, &d, fi);
+            if !c.is_empty() {
+                ctx.violation(key, format!("{}\n{text}", c.join("; ")), case);
+            }
+        }
+    }
 }
 
 fn check_big_export(ctx: &mut Ctx, member: usize, fi: usize) {
@@ -727,6 +788,14 @@ fn run(ctx: &mut Ctx) {
                 }
             }
             m += 1;
+        }
+        for tt in 0..65536u64 {
+            for fi in 0..3 {
+                idx += 1;
+                if ctx.mine(idx) && (ctx.thorough() || tt % 16 == 6 || tt < 512) {
+                    check_coarse_hash_export(ctx, tt, fi);
+                }
+            }
         }
     }
     let th = ctx.thorough();
@@ -811,6 +880,7 @@ fn run(ctx: &mut Ctx) {
 fn replay(ctx: &mut Ctx, c: &Value) {
     match c["part"].as_str() {
         Some("tree") => check_tree_export(ctx, c["text"].as_str().unwrap_or("")),
+        Some("bdd-coarse-hash") => check_coarse_hash_export(ctx, c["f"].as_u64().unwrap_or(0), c["filter"].as_u64().unwrap_or(0) as usize),
         Some("bdd-big") => check_big_export(ctx, c["member"].as_u64().unwrap_or(0) as usize, c["filter"].as_u64().unwrap_or(0) as usize),
         Some("bdd-exotic") => {
             if let Ok(sp) = Space::<NamedSymbol>::by_interning(&named_exotic()) {
